@@ -105,7 +105,10 @@ impl Ssh {
                                 }
                             }
                         } else {
-                            // TODO: what should we do if it's None?
+                            // the channel is gone (closed by the peer or the connection was
+                            // lost): stop, so that both queues close and callers get an error
+                            tracing::info!("ssh channel closed, hanging up");
+                            break;
                         }
                     }
                 }
